@@ -151,7 +151,9 @@ def run(tier, seed):
         dd = prepare(os.path.join(chk.work, "f_%s_%s_%s_%d" % (prev, report, x, v)), G1, prev, ref_cur, ref_old)
         p = os.path.join(dd, "g.lalrpop")
         rc, out, err, to = core.run([bin_] + force + extra + [p], timeout=120, rlimit_fsize=v, ignore_xfsz=(x == "efbig"))
-        return (dd, "RLIMIT_FSIZE %s b=%d prev=%s report=%s" % (x, v, prev, report), rc != 0)
+        # the limit bites whenever it is below the output size, whatever the exit status says
+        # (a run that hides a short write behind exit 0 is exactly what must be caught)
+        return (dd, "RLIMIT_FSIZE %s b=%d prev=%s report=%s" % (x, v, prev, report), rc != 0 or v < size)
 
     recs = core.tmap(do, points)
     for dd, desc, hit in recs:
